@@ -180,7 +180,11 @@ def _run(ctx, replay):
             rep['tie_broken'].append('%s: history harness exited %d: %s' % (label, h['rc'], h['stderr'][-300:])); return
         fr, fraw = fresh_results(ops, env, H)
         stats['histories'] += 1; stats['ops_in_histories'] += len(ops)
-        inserted = [o.split(' ')[2] for o in ops if opname(o) == 'AddBuiltin'] + (['XvTric'] if any(opname(o) == 'ReadFileBuiltin' and 'xv_user2.dat' in o for o in ops) else [])
+        # names that really were inserted into the built-in array (a failing insertion inserts nothing: everything stays comparable)
+        okins = [o for i, o in enumerate(ops) if opname(o) in INSERTING and (h['res'].get(i) or '').startswith('i:1')]
+        inserted = [o.split(' ')[2] for o in okins if opname(o) == 'AddBuiltin'] + (['XvTric'] if any('xv_user2.dat' in o for o in okins) else []) + \
+                   (['XvCubic', 'XvHex'] if any('xv_user1.dat' in o for o in okins) else [])
+        insertion = insertion and bool(okins)
         okT, errT = (ok_kissel, err_kissel) if H is HR else (ok_texts, err_texts)
         for i, o in enumerate(ops):
             a = h['res'].get(i); b = fr.get(o)
@@ -272,7 +276,10 @@ def _run(ctx, replay):
             if fn.startswith(ID + '-') and fn.endswith('.lines'):
                 txt = open(os.path.join(cdir, fn)).read()
                 ops = split_ops(txt.splitlines()); all_ops += ops
-                check_history(ops, dict(re.findall(r'^#env (\w+)=(\S*)$', txt, flags=re.M)) or C_ENV, 'corpus ' + fn, insertion=any(o.startswith('AddBuiltin ') for o in ops))
+                kis = bool(re.search(r'^#config kissel', txt, flags=re.M))
+                if kis and HR is None: continue
+                check_history(ops, dict(re.findall(r'^#env (\w+)=(\S*)$', txt, flags=re.M)) or C_ENV, 'corpus ' + fn, insertion=any(opname(o) in INSERTING for o in ops),
+                              H=(HR if kis else H))
         for i in range(nh):
             g = xrlops.OpGen(random.Random(ctx.rng.getrandbits(64)), meta, files=files)
             ops = g.ops(nops, allow_retain=True)
@@ -363,6 +370,12 @@ def _run(ctx, replay):
         for env_, n_ in ((dict(LC_ALL='C.utf8'), 400 if ctx.tier == 'quick' else 3000), (dict(LC_NUMERIC='C.utf8'), 200 if ctx.tier == 'quick' else 1500)):
             g = xrlops.OpGen(random.Random(ctx.rng.getrandbits(64)), meta, files=files)
             ops = [o for o in g.ops(n_, allow_retain=True) if opname(o) not in INSERTING]
+            # every entry point from which a setlocale call is reachable is in this history, whatever the seed (a protocol that does not put
+            # back what it found must not depend on being sampled)
+            locfam = [e_ for e_ in sorted(meta['classes']) if e_ in g.generic and any('setlocale' in meta['functions'][x_]['exts'] for x_ in sl.closure(meta, e_))]
+            for e_ in locfam:
+                for _ in range(3): ops.insert(g.rng.randrange(len(ops) + 1), g.generic_op(e_))
+            stats['locale_family_entries_in_locale_history'] = len(locfam)
             check_history(ops, env_, 'history under %s' % ' '.join('%s=%s' % kv for kv in env_.items()))
         if HR is not None:
             g = xrlops.OpGen(random.Random(ctx.rng.getrandbits(64)), meta, files=files); g.allow_retain = True
@@ -377,7 +390,9 @@ def _run(ctx, replay):
                 # exhaustive discrete sweep of the offending entries (every Z x every macro value, typical real arguments): a trace left only
                 # for one element / one macro (a stray diagnostic for Z = 81, a cache for one shell) must not depend on being sampled
                 from vlib import apisweep
+                sweep_deadline = ctx.t0 + (420 if ctx.tier == 'quick' else 1500)      # the sweeps are a search aid: they must not eat the check's deadline
                 for fn_ in ents_g[:6]:
+                    if time.time() > sweep_deadline: ctx.notes.append('exhaustive sweeps stopped at the time budget before %s' % fn_); break
                     ret_, ins_, zout_ = gen[fn_]
                     if any(kd not in ('i', 'd') for _, kd in ins_) or sum(1 for _, kd in ins_ if kd == 'i') > 2: continue
                     vals_ = []
@@ -391,7 +406,7 @@ def _run(ctx, replay):
                     Hx = HR if (HR is not None and fn_ in fam) else H
                     for k0 in range(0, len(allops), 6000):
                         check_history(allops[k0:k0 + 6000], C_ENV, 'exhaustive sweep of %s [%d..]' % (fn_, k0), H=Hx)
-                        if any(f.get('label', '').startswith('exhaustive sweep') for f in findings): break
+                        if any(f.get('label', '').startswith('exhaustive sweep') for f in findings) or time.time() > sweep_deadline: break
                 for rnd in range(6):
                     g = xrlops.OpGen(random.Random(ctx.rng.getrandbits(64)), meta); g.fresh_p = 0.05
                     ops = [g.generic_op(g.rng.choice(ents_g)) for _ in range(800)]
